@@ -213,6 +213,8 @@ class World:
         if self.sim == "hyper":
             s2.Solver_Set_Hyperbolic_Algorithm(dt=0.25)
         s2.rho = self.P[i]["rho"]
+        if self.P[i]["algo"] is not None and self.sim in ("thermal", "elastic"):
+            (s2.Solver_Set_Parabolic_Algorithm if self.sim == "thermal" else s2.Solver_Set_Hyperbolic_Algorithm)(self.P[i]["algo"])
         if self.sim == "elastic":
             a, b_ = self.P[i]["damp"]
             s2.Set_Rayleigh_Damping_Coefs(a, b_)
@@ -304,6 +306,15 @@ def op_apply(w, name, V, tag):
             s.Result(rname, nodeValues=False)
         arr[:] = arr * V.get(f"f{tag}", Fraction(1, 2), 2)
         put(arr)
+    elif name == "scheme":
+        # switch the time scheme: steady <-> transient (symbolic step size)
+        if w.P[0]["algo"] is None:
+            dt = V.get(f"dt{tag}", Fraction(1, 100), 1)
+            (s.Solver_Set_Parabolic_Algorithm if w.sim == "thermal" else s.Solver_Set_Hyperbolic_Algorithm)(dt)
+            w.P[0]["algo"] = dt
+        else:
+            s.Solver_Set_Elliptic_Algorithm()
+            w.P[0]["algo"] = None
     elif name == "damping":
         a, b = V.get(f"cM{tag}", 0, 1), V.get(f"cK{tag}", 0, 1)
         s.Set_Rayleigh_Damping_Coefs(a, b)
@@ -380,15 +391,15 @@ def op_apply(w, name, V, tag):
 
 FIELD_OPS = ("Efield", "kfield", "rhofield")  # per-element fields: tied to the mesh they were written for (never followed by a mesh replacement)
 
-OPS = {"elastic": ["E", "v", "planeStress", "thickness", "rho", "damping", "translate", "rotate", "symmetry", "coord", "gcoord", "newmesh", "bc", "bc_add", "set_iter", "Efield", "rhofield"],
-       "thermal": ["k", "c", "thickness", "rho", "translate", "rotate", "symmetry", "coord", "gcoord", "newmesh", "bc", "set_iter", "kfield", "rhofield"],
+OPS = {"elastic": ["E", "v", "planeStress", "thickness", "rho", "damping", "translate", "rotate", "symmetry", "coord", "gcoord", "newmesh", "bc", "bc_add", "set_iter", "Efield", "rhofield", "scheme"],
+       "thermal": ["k", "c", "thickness", "rho", "translate", "rotate", "symmetry", "coord", "gcoord", "newmesh", "bc", "set_iter", "kfield", "rhofield", "scheme"],
        "hyper": ["lmbda", "thickness", "rho", "translate", "symmetry", "coord", "gcoord", "newmesh"],
        "beam": ["E", "yAxis", "rho", "bc"],
        "frame": ["E", "rho", "bc", "weld", "hinge"]}
 
 
-NON_NOTIFYING = ("bc", "bc_add", "weld", "hinge")
-OWN_ONLY = ("rho", "rhofield", "damping", "newmesh", "set_iter")  # operations on simulation 1 that leave a second simulation sharing its model / mesh untouched
+NON_NOTIFYING = ("bc", "bc_add", "weld", "hinge", "scheme")
+OWN_ONLY = ("rho", "rhofield", "damping", "newmesh", "set_iter", "scheme")  # operations on simulation 1 that leave a second simulation sharing its model / mesh untouched
 
 
 def group_level_tail(ops, i=0, sim=""):
